@@ -5,7 +5,7 @@ import ast
 
 import z3
 
-from .types import (BOOL, INT, NONE, REAL, TDict, TFun, TList, TMap, TObj, TOpt, TSet, TTuple, TU, T, V,
+from .types import (BOOL, INT, NONE, REAL, TDict, TFun, TList, TMap, TObj, TOpt, TSet, TTuple, TU, T, V, set_mem,
                     dict_card, dict_dom, dict_val, fresh, list_arr, list_len, mk_dict, mk_list, mk_set, mk_tuple,
                     opt_is_none, opt_none, opt_some, opt_val, parse_type, set_card, set_mem, sort_of, tuple_get)
 
@@ -269,6 +269,14 @@ class Eval:
             return self.ex.list_repeat(self, b, a, n)
         if isinstance(op, ast.Add) and isinstance(a.t, TList) and isinstance(b.t, TList):
             return self.ex.list_concat(self, a, b, n)
+        if isinstance(op, (ast.BitAnd, ast.BitOr, ast.Sub)) and isinstance(a.t, TSet) and a.t == b.t:
+            # set algebra: membership pointwise, cardinality left unspecified (only non-negative)
+            r = self.ex.new_sym(a.t, "setop", self.st)
+            q = z3.Const("q!setop", sort_of(a.t.k))
+            ma, mb, mr = set_mem(a), set_mem(b), set_mem(r)
+            comb = {ast.BitAnd: z3.And(ma[q], mb[q]), ast.BitOr: z3.Or(ma[q], mb[q]), ast.Sub: z3.And(ma[q], z3.Not(mb[q]))}[type(op)]
+            self.st.pc.append(z3.ForAll([q], mr[q] == comb, patterns=[mr[q]]))
+            return r
         if isinstance(op, (ast.BitOr, ast.BitAnd, ast.LShift)):
             if a.t != INT or b.t != INT:
                 raise Unsupported("bit op on non-int")
